@@ -10,67 +10,67 @@ ENV = "GOFLAGS=-mod=mod GOPROXY=off GOSUMDB=off GOTOOLCHAIN=local"
 CHECKS = {
  "C01": (True, "exploration",
          "property-based testing (rapid): generated datasets x grammar- and type-directed filters against an independent three-valued reference evaluator; metamorphic route equivalence (QueryIds / QueryIdsC / IterateIds / ast-only evaluation) and seek-shortcut rewrites",
-         "Every generated (dataset, filter) pair is answered by the engine through four routes and compared, in both directions (nothing omitted, nothing extra, count exact), with a reference evaluator written from the property statement; atoms that can take the index-seek shortcut are re-run in an equivalent non-seekable spelling. Covers every comparison operator x operand type x coercion class of the generator's table, set functions over direct/dotted/fk sets, map elements, sub-queries, schema variants. Sampling with small universes: a defect needing a constant or nesting depth outside the generator is out of reach.",
+         "Every generated (dataset, filter) pair is answered by the engine through four routes and compared, in both directions (nothing omitted, nothing extra, count exact), with a reference evaluator written from the property statement; atoms that can take the index-seek shortcut are re-run in an equivalent non-seekable spelling. Covers every comparison operator x operand type x coercion class of the generator's table, set functions over direct/dotted/fk sets, map elements up to four segments deep, sub-queries (with sort / skip / limit, and over a self-link re-using the link symbol), keyword letter case, schema variants. Sampling with small universes: a defect needing a constant or nesting depth outside the generator is out of reach.",
          "Trusts the reference evaluator (kit/ref.go), the dataset writer (TypedBucket setters, as in boltz/query_test.go) and bbolt. Rows whose answer the property does not pin down (listed in DESIGN.md §9) evaluate to Unknown in the reference and are not asserted.",
          "DESIGN.md §3 C01"),
  "C02": (True, "exploration",
          "property-based testing (rapid): generated datasets x queries (predicate, 0-5 sort keys, skip, limit) against a reference sort/page; strategy equivalence across index scan, sorting scan, explicit cursor providers, re-execution and cursor iteration, also through plain and extended child stores; metamorphic constant-sort-key relation",
-         "The ordered id list and the total count returned through five routes are compared for equality with the list the property prescribes (sort keys each asc/desc, nulls first ascending, id tie-break, max(skip,0) dropped, limit absent/negative/none = unbounded). Boundary classes of skip and limit are generated explicitly and their frequencies reported; a third of the datasets mix plain people with people that have child data and route queries through a child store (population = entities with child data) or an extended one (population = everyone). Sampling over datasets of <= 8 rows.",
+         "The ordered id list and the total count returned through seven routes (incl. tree-set and union-of-tree-sets cursor providers in both directions and a second execution of the compiled query) are compared for equality with the list the property prescribes (sort keys each asc/desc, nulls first ascending, id tie-break, max(skip,0) dropped, limit absent/negative/none = unbounded). Boundary classes of skip and limit are generated explicitly and their frequencies reported; a third of the datasets mix plain people with people that have child data and route queries through a child store (population = entities with child data) or an extended one (population = everyone). Sampling over datasets of <= 8 rows.",
          "Trusts kit/refsort.go and the reference predicate evaluator; predicates with rows of unspecified answer are skipped; <= 5 sort keys.",
          "DESIGN.md §3 C02"),
  "C17": (True, "exploration",
          "property-based testing (rapid) of snapshot/restore histories with a whole-file dump-equality oracle, plus generated concurrent reader/writer/restore workloads under the race detector with a single-generation invariant",
-         "Sequential cases split a generated history at a drawn point, snapshot (three ways), continue, restore (two ways) and require: dump after restore == dump at snapshot time modulo the two markers, stores show the model of that time, GetSnapshotId equals the returned id, every restore listener fires once, the first timeline request gets a fresh id exactly once, and the post-snapshot transactions replayed on the restored database have the same outcomes. Concurrent cases run readers that verify one generation across entities, indexes and queries inside each read transaction while a writer bumps generations and restores happen; built with -race.",
+         "Sequential cases split a generated history at a drawn point, snapshot (three ways), continue, restore (two ways) and require: dump after restore == dump at snapshot time modulo the two markers, stores show the model of that time, GetSnapshotId equals the returned id, every restore listener fires once (independently of a slow one), the first timeline request gets a fresh id exactly once (also when two requests overlap, and when it only comes after a second snapshot / restore cycle), a snapshot taken from a read transaction shows what that transaction sees although a write committed meanwhile, readers that deliver data together with EOF restore completely, and the post-snapshot transactions replayed on the restored database have the same outcomes. Concurrent cases run readers that verify one generation across entities, indexes and queries inside each read transaction while a writer bumps generations and restores happen; built with -race.",
          "Interleavings are sampled by the Go scheduler. Snapshots are never taken concurrently with a restore (possible recursive-read-lock deadlock is a liveness matter outside this check).",
          "DESIGN.md §3 C17"),
  "C18": (True, "exploration",
          "generated concurrent workloads (rapid) under the Go race detector; oracle = version-tagged snapshot invariant + reference query answers per version + any race report is a violation",
-         "Each workload runs 2-8 readers, 0-4 helper-hammering goroutines and one writer whose every transaction moves the whole database to the next version; inside each read transaction entities, unique index, set index, both link sides and drawn queries (parsed concurrently) must all show the same version and equal the serial answer for it; helper results (error classification, parse, symbol resolution, public-symbol validation) are checked; the binary is built with -race.",
+         "Each workload runs 2-8 readers, 0-4 helper-hammering goroutines and one writer whose every transaction moves the whole database to the next version; inside each read transaction entities, unique index, set index, both link sides and drawn queries (parsed concurrently) must all show the same version and equal the serial answer for it; helper results (error classification, parse, symbol resolution, public-symbol validation, failing read transactions, failing batched transactions that must leave nothing visible) are checked; query results held after their read transaction must not change; no read transaction may be left open at the end; the binary is built with -race.",
          "Interleavings are sampled, not enumerated; a race needing a specific preemption point can be missed.",
          "DESIGN.md §3 C18"),
  "C19": (True, "exploration",
          "property-based differential testing (rapid): the same generated query is answered by objectz.ObjectStore and by a bolt store holding the same values",
-         "Literal differential the property states: ids, order and count (or error/no error) must agree for every generated collection x predicate over non-set symbols x sort x skip/limit, including = null / != null, negative skip, skip without limit, limit none, limit 0 and skip past the end. The object store is iterated in reverse insertion order.",
+         "Literal differential the property states: ids, order and count (or error/no error) must agree for every generated collection x predicate over non-set symbols x sort x skip/limit, including = null / != null, negative skip, skip without limit, limit none, negative limits, limit 0, skip past the end, the zero time, up to 7 sort keys, and pairs of queries on one store instance that differ only in the letter case of a string literal. The object store is iterated in reverse insertion order.",
          "Trusts the bolt store as the reference (its own exactness is C01/C02).",
          "DESIGN.md §3 C19"),
  "C20": (True, "exploration",
          "property-based testing (rapid): typed queries over every AST node kind x public/non-public assignments; oracle = reference symbol set computed from the generated AST",
-         "For each generated query the exact set of referenced symbols is known by construction; ValidateSymbolsArePublic must accept iff all are public and otherwise name a referenced non-public symbol. The single non-public symbol is drawn uniformly over syntactic occurrences, so deep positions (inside set functions, sub-queries, in/between/contains/null tests, sort fields) are hit as often as shallow ones; the histogram of positions is reported.",
-         "Dotted linked symbols are excluded (publicity undefined for them); sub-queries range over a self-link so the store is unambiguous.",
+         "For each generated query the exact set of referenced symbols is known by construction; ValidateSymbolsArePublic must accept iff all are public and otherwise name a referenced non-public symbol. The single non-public symbol is drawn uniformly over syntactic occurrences, so deep positions (inside set functions, sub-queries, in/between/contains/null tests, sort fields up to the eighth) are hit as often as shallow ones; the histogram of positions is reported.",
+         "Dotted linked symbols (boss.sa, home.name, peers.sa) are symbols with a publicity of their own; the comparison with a child store that was granted the parent's symbols leaves them out. Sub-queries range over a self-link so the store is unambiguous.",
          "DESIGN.md §3 C20"),
  "C03": (True, "exploration",
          "stateful property-based testing (rapid, histories generated as data with a model-guided generator): in-memory model of unique/set indexes; invariant = index buckets equal model-derived state after every transaction; failed transactions leave the dump unchanged",
-         "Generated create/update/patch/delete histories (accepted and rejected operations, several per transaction, caller aborts, Db.Batch, hostile values) are executed against the real store and a model; after every transaction the unique indexes (nullable and not) and the set index are compared bucket by bucket and through ReadIndex/SetReadIndex with the model, every entity is re-read, and each rejection must be of the predicted kind and leave the database dump identical.",
+         "Generated create/update/patch/delete histories (accepted and rejected operations, several per transaction, caller aborts, Db.Batch, system contexts, hostile values; base paths 1-4 segments deep, keyed symbols, half of the stores with a unique index over an int64 field, a third with an extended and an indexed child store) are executed against the real store and a model; after every transaction the unique indexes (nullable and not) and the set index are compared bucket by bucket and through ReadIndex/SetReadIndex with the model, every entity is re-read, and each rejection must be of the predicted kind and leave the database dump identical.",
          "Trusts the model (kit/world.go) and bbolt's rollback. 'Changes nothing' is asserted per transaction.",
          "DESIGN.md §3 C03"),
  "C04": (True, "exploration",
          "stateful property-based testing (rapid): model of references over five fk wirings, a self reference and references to a child store, hostile id universe; invariants = exact back-reference sets and exact survivor sets after delete",
-         "Histories over a target store (with a child store), and nine referrer stores (nullable / non-null fk index, fk constraint with cascade none / cascade delete, cascade-delete fk index, self-referencing fk index, and three wirings whose target is the child store), each history concentrating on 2-4 of them, with explicit re-parenting, stale-target and cascade-burst transactions, with ids containing quotes, backslashes, filter keywords, blanks, brackets, newlines, tabs and a control byte. The model predicts missing-target and null rejections, reference-exists refusals and the exact set of entities removed by a cascade; entities, back-references and (on failure) the whole dump are compared after every transaction.",
+         "Histories over a target store (with a child store), and nine referrer stores (nullable / non-null fk index, fk constraint with cascade none / cascade delete, cascade-delete fk index, self-referencing fk index, and three wirings whose target is the child store), each history concentrating on 2-4 of them, with explicit re-parenting, stale-target, swap-referrer and cascade-burst transactions, a child store over one referrer store, ordinary and system contexts, with ids containing quotes, backslashes, filter keywords, blanks, brackets, newlines, tabs and a control byte. The model predicts missing-target and null rejections, reference-exists refusals and the exact set of entities removed by a cascade; entities, back-references and (on failure) the whole dump are compared after every transaction.",
          "Self-reference-only deletes and cascade cycles are skipped as unspecified. Error classes via exported Is* helpers only.",
          "DESIGN.md §3 C04"),
  "C05": (True, "exploration",
          "stateful property-based testing (rapid) with an adjacency/count model read from both sides, plus bounded-exhaustive enumeration of (current set, requested list) pairs for SetLinks",
-         "Histories of all link operations issued from either side (plain and ref-counted collections), entity creates/deletes and links to missing entities; after every transaction GetLinks, IterateLinks, IsLinked, GetLinkCount(s) and the raw buckets of both sides must equal the model and each other. SetLinks is additionally enumerated over every current set x every requested list (with duplicates, any order) of a small universe.",
+         "Histories over three stores and a child store (five collections: plain and ref-counted, one declared on the child store, two whose remote symbols share a name; ids that are prefixes of other ids) of all link operations issued from either side, link sets persisted together with the entity (PersistContext.SetLinkedIds on create / update / patch through the store or the child store), grow-then-shrink transactions, entity creates/deletes and links to missing entities; after every transaction GetLinks, IterateLinks, IsLinked, GetLinkCount(s) and the raw buckets of both sides must equal the model and each other. SetLinks is additionally enumerated over every current set x every requested list (with duplicates, any order) of a small universe.",
          "Negative counts not generated. Trusts the model.",
          "DESIGN.md §3 C05"),
  "C06": (True, "exploration",
          "stateful property-based testing (rapid) over a kitchen-sink schema; oracle = whole-file traversal for any occurrence of the deleted id (independent walker + boltz.ValidateDeleted) and model equality after re-creation",
-         "Histories over stores combining unique, nullable-unique, set and fk indexes, fk constraints with cascade, plain and ref-counted links (one declared on the child store) and a child store with its own unique index end with the delete of a chosen entity and the re-creation of the same id. After the delete commits the id must not occur anywhere in the file in any encoding; after re-creation all model invariants must hold for the fresh entity. The histogram reports which attachment kinds the victim had.",
+         "Histories over stores combining unique, nullable-unique, set and fk indexes, fk constraints with cascade, plain and ref-counted links (one declared on the child store) two child stores (the later one with its own unique index and link collection), ids that are prefixes of other ids, end with the delete of a chosen entity and the re-creation of the same id. After the delete commits the id must not occur anywhere in the file in any encoding; after re-creation all model invariants must hold for the fresh entity. The histogram reports which attachment kinds the victim had.",
          "Ids are disjoint from field values (otherwise an occurrence would be ambiguous). Trusts the model.",
          "DESIGN.md §3 C06"),
  "C13": (True, "exploration",
-         "property-based testing (rapid) with a write-transaction / read-transaction round-trip oracle, a field-checker frame oracle and codec round-trip + injectivity; native go fuzzing of the codec in the thorough tier",
-         "Generated values of every supported type (boundary and random, arbitrary byte strings, float bit patterns incl. NaN payloads, times in any zone, nulls written three ways, string lists with duplicates, maps/lists nested up to 4 deep) are written in one transaction and read back in a later one through the typed getters; field-checker cases write a baseline and then different values under a drawn checker subset through TypedBucket and PersistContext setters and require exactly the selected fields to change; compound keys are round-tripped and checked for injectivity against random and near-miss lists; unsupported kinds must return an error without panicking.",
+         "property-based testing (rapid) with a write-transaction / read-transaction round-trip oracle, a field-checker frame oracle (incl. overwrites of lists, maps and string lists, mapped and nil checkers) and codec round-trip + injectivity; native go fuzzing of the codec in the thorough tier",
+         "Generated values of every supported type (boundary and random, arbitrary byte strings, float bit patterns incl. NaN payloads, times in any zone, nulls written three ways, string lists with duplicates, maps/lists nested up to 4 deep) are written in one transaction and read back in a later one through the typed getters; field-checker cases write a baseline and then different values under a drawn checker subset through TypedBucket and PersistContext setters and require exactly the selected fields to change; compound keys are round-tripped and checked for injectivity against random and near-miss lists; unsupported or unstorable values, at the top level or below lists and maps, must return an error without panicking.",
          "Map keys are non-empty and differ from the reserved list-size marker. Sampling; no exhaustive sub-space.",
          "DESIGN.md §3 C13"),
  "C14": (True, "exploration",
          "property-based testing (rapid): 20 cursor kinds x byte-string sets x Next/Seek walks against a sorted-slice position model",
-         "For every cursor the library hands out (raw, typed, reverse, related-entities, link and ref-counted link iteration, set-index value and key cursors, set-symbol runtime cursor, id iteration incl. extended stores, empty, filtered, tree-backed, union, matching-all/any providers) the full enumeration must equal the underlying set once each in key order and every Next / Seek step must leave IsValid and Current (untagged) equal to the model, including sets containing the empty string, shared prefixes, 0xff bytes and the empty set.",
+         "For every cursor the library hands out (raw, typed, reverse, related-entities, link and ref-counted link iteration, set-index value and key cursors, set-symbol runtime cursor, id iteration incl. extended stores, empty, filtered, tree-backed, union, matching-all/any providers) the full enumeration must equal the underlying set once each in key order and every Next / Seek step must leave IsValid and Current (untagged) equal to the model, including sets containing the empty string, shared prefixes, 0xff bytes, elements longer than 64 bytes and the empty set; a second cursor of the same set symbol opened on another row in mid-walk must not disturb the first.",
          "The set-symbol runtime cursor is sought with SeekToString only. Sets of at most 8 elements over an 11-element universe.",
          "DESIGN.md §3 C14"),
  "C15": (True, "exploration",
          "stateful property-based testing (rapid): model of (parent part, optional child part) per id, operations routed through either store, plain and extended child stores",
-         "After every transaction of a generated history (create / update / patch / delete / delete-where through either store; half of the child stores have a unique index of their own) the populations returned by FindById / LoadById / QueryIds (plain, sorted, with counts) / IterateIds (plain and paged) / IterateValidIds / IsEntityPresent through both stores, the shared and child-only fields, and the parent's unique and set indexes are compared with the model; parent constraints must reject child creates; a committed delete through either store must leave no occurrence of the id in the file.",
+         "After every transaction of a generated history (create / update / patch / delete / delete-where through either store; half of the child stores have a unique index of their own, a third of the configurations a second child store, shared fields occasionally hold values the parent's setters refuse) the populations returned by FindById / LoadById / QueryIds (plain, sorted, with counts) / IterateIds (plain and paged) / IterateValidIds (enumerated and positioned with Seek) / IsEntityPresent through both stores, the shared and child-only fields, and the parent's unique and set indexes are compared with the model; parent constraints must reject child creates; a committed delete through either store must leave no occurrence of the id in the file.",
          "Uses a mapper that routes by IsEntityPresent and copies the written shared fields. Three unspecified operation shapes are skipped (listed in the evidence assumptions).",
          "DESIGN.md §3 C15"),
  "C16": (True, "exploration",
@@ -80,22 +80,22 @@ CHECKS = {
          "DESIGN.md §3 C16"),
  "C07": (True, "fault_enumeration",
          "property-based generation of transaction bodies (rapid) with exhaustive enumeration of failure kind x failure position x entry point per body; oracle = error reaches the caller, dump before == dump after, no callback after a barrier",
-         "For each generated (database, body) the runner enumerates 19 failure kinds (caller error, duplicate, empty value, missing fk target, two storage refusals, oversized set element inside a field-restricted update, vetoes on create/update/patch/delete incl. parent-store veto for a child op, child-store veto for a routed update and veto on a cascaded delete, pre-commit action errors: first of two, on a derived system context, on an early-derived context) at every position and through Db.Update, a nested Db.Update and Db.Batch; the rejected call and the transaction must return non-nil, the full dump must equal the baseline and no listener of any style, commit action or tx-complete listener may run; the unmodified body must then commit and match the model.",
+         "For each generated (database, body) the runner enumerates 25 failure kinds (pre-commit action queued before the transaction is opened, unstorable value nested below a list in a SetMap document or in the tags of a patch, missing link target in a link set persisted with the entity through either store, reference to a missing target that equals the referrer's own id, caller error, duplicate, empty value, missing fk target, two storage refusals, oversized set element inside a field-restricted update, vetoes on create/update/patch/delete incl. parent-store veto for a child op, child-store veto for a routed update and veto on a cascaded delete, pre-commit action errors: first of two, on a derived system context, on an early-derived context) at every position and through Db.Update, a nested Db.Update and Db.Batch; the rejected call and the transaction must return non-nil, the full dump must equal the baseline and no listener of any style, commit action or tx-complete listener may run; the unmodified body must then commit and match the model.",
          "Failure kinds are the ones reachable without a hook below bbolt (no I/O fault injection). Bodies are sampled, kind x position per body is exhaustive.",
          "DESIGN.md §3 C07"),
  "C08": (True, "exploration",
-         "stateful property-based testing (rapid): expected event multiset derived from the model per transaction, compared for equality with the callbacks recorded from every listener registration style on parent and child stores",
-         "Every transaction of a generated history (committed, aborted, rejected; Update or Batch; operations routed through either store) is followed by a barrier; the multiset of (store, style, change type, id, delivered state) must equal the model-derived one, nothing may fire before the commit handler, commit actions run exactly once iff committed and tx-complete listeners exactly once per committed Db.Update.",
+         "stateful property-based testing (rapid): expected event multiset derived from the model per transaction, compared for equality with the callbacks recorded from every listener registration style (one call per change type and one call naming all types) on the parent store and one or two child stores",
+         "Every transaction of a generated history (committed, aborted, rejected; Update or Batch; operations routed through either store) is followed by a barrier; the multiset of (store, style, change type, id, delivered state) must equal the model-derived one, nothing may fire before the commit handler, commit actions (registered before the transaction, inside it, and through a context derived with UpdateContext) run exactly once iff committed and tx-complete listeners exactly once per committed Db.Update.",
          "Asynchronous callbacks are awaited with bounded polls (5-10 s ceilings); extended-store events for plain parents are not asserted.",
          "DESIGN.md §3 C08"),
  "C09": (True, "exploration",
          "property-based testing (rapid): consistent databases built through the API, subsets of raw bbolt corruptions from 19 classes on parent and child-store indexes; oracle = completeness/soundness by token attribution, dump equality in check mode, model equality after one fix run",
-         "A generated API history (through the parent stores and a plain or extended child store that has a unique index of its own; empty alias / reference values included) yields a consistent database on which both modes, run over every store and child store, must report nothing and change nothing; 1-5 raw corruptions (missing / extra / wrong-target unique entries, missing / extra / empty set-index entries and keys, missing / extra / dangling fk back-references and references, one-sided and dangling links, plus the unfixable duplicate-unique and null-in-non-nullable conflicts) are then written behind the API. The check-only run must report each, report nothing else, and leave the dump identical; one fix run followed by a re-check must report only the unfixable conflicts and the indexes, back-references and links must equal the model again.",
+         "A generated API history (through the parent stores and a plain or extended child store that has a unique index of its own; empty alias / reference values included) yields a consistent database on which both modes, run over every store and child store, must report nothing and change nothing, also when the check runs inside the transaction that wrote the last changes; 1-5 raw corruptions (missing / extra / wrong-target unique entries, missing / extra / empty set-index entries and keys, missing / extra / dangling fk back-references and references, one-sided and dangling links, plus the unfixable duplicate-unique and null-in-non-nullable conflicts) are then written behind the API. The check-only run must report each, report nothing else, and leave the dump identical; one fix run followed by a re-check must report only the unfixable conflicts and the indexes, back-references and links must equal the model again; an id that dangled before the fix is then created and linked through the API on the same store objects and the next check must report nothing.",
          "Reports are matched by the ids/values they mention. Empty link/back-reference container buckets inside an entity (created lazily even by reads) are ignored when comparing dumps; empty index keys are not.",
          "DESIGN.md §3 C09"),
  "C10": (True, "exploration",
          "property-based testing and fuzzing: grammar sentences with free operand types, token-level mutants, bounded-exhaustive token strings, random runes, foreign-character injections (rapid); native coverage-guided go fuzzing in the thorough tier; oracle = recover-guarded totality + independent rejection rule",
-         "Every generated input is pushed through ast.Parse (bolt and in-memory symbol tables), and every query that parses is evaluated through QueryIds, IterateIds, in-memory EvalBool, ValidateSymbolsArePublic and ObjectStore.QueryEntities over an empty store, all-null rows and a rich dataset, all under recover: a panic, or a result that is neither exactly a query nor exactly an error, is a violation. Independently of the parser, a well-typed sentence with one character that occurs in no lexer rule inserted at a token boundary must be rejected. All token strings of length <= 3 (quick) / <= 4 (thorough) over a 41-token alphabet and a paging matrix (7 predicates x 6 sorts x 6 skips x 6 limits) are enumerated.",
+         "Every generated input is pushed through ast.Parse (bolt and in-memory symbol tables), and every query that parses is evaluated through QueryIds, IterateIds, in-memory EvalBool, ValidateSymbolsArePublic and ObjectStore.QueryEntities over an empty store, all-null rows and a rich dataset, all under recover: a panic, or a result that is neither exactly a query nor exactly an error, is a violation. Independently of the parser, a well-typed sentence with one character that occurs in no lexer rule inserted at a token boundary must be rejected. All token strings of length <= 3 (quick) / <= 4 (thorough) over a 41-token alphabet and a paging matrix (7 predicates x 9 sorts of up to 8 fields x 6 skips x 6 limits) are enumerated; sub-query predicates are drawn over the sub-query's own symbol table; parsed queries are also served from a caller-supplied tree-set cursor.",
          "Termination is only observed through the test deadline. The fuzz target caps input length and the number of and/or tokens because ANTLR prediction is exponential on long mixed chains (a performance matter, not claimed).",
          "DESIGN.md §3 C10"),
  "C12": (True, "exploration",
@@ -105,7 +105,7 @@ CHECKS = {
          "DESIGN.md §3 C12"),
  "C11": (True, "exploration",
          "property-based testing (rapid) with a round-trip oracle and an end-to-end query oracle; native go fuzzing of the codec in the thorough tier",
-         "Generated strings over the property's alphabet (biased to adjacent backslash/letter/quote patterns) are quoted, parsed back and used in =, !=, in, not in, contains, not contains queries on a string field and anyOf = / anyOf in / allOf != / anyOf contains queries on a string set, over rows holding the string, near-misses (incl. strings it is a prefix of) and null, through the in-memory symbol route and a bolt store; every answer is compared with the set computed directly from the intended string. Sampling, not proof: a defect needing a string outside the alphabet/length bound can be missed.",
+         "Generated strings over the property's alphabet (biased to adjacent backslash/letter/quote patterns) are quoted, parsed back and used in =, !=, in, not in, contains, not contains queries on a string field and anyOf = / anyOf in / allOf != / anyOf contains queries on a string set, over rows holding the string, near-misses (incl. strings it is a prefix of) and null, and in lists of 10-11 literals where it is the smallest or the greatest element, through the in-memory symbol route and a bolt store; every answer is compared with the set computed directly from the intended string. Sampling, not proof: a defect needing a string outside the alphabet/length bound can be missed.",
          "Trusts the harness's quote() (written from the property statement), the in-memory ast.Symbols implementation and bbolt. Control characters other than LF TAB CR FF are outside the domain.",
          "DESIGN.md §3 C11"),
 }
